@@ -86,7 +86,7 @@ fn short(op: &Op) -> String {
         Op::Connect { c, clean, will, alias_max } => format!("connect c{c} clean={clean}{}{}", if will.is_some() { " will" } else { "" }, if *alias_max > 0 { " alias" } else { "" }),
         Op::Subscribe { c, filters, sub_id, .. } => format!("sub c{c} {:?}{}", filters, sub_id.map(|i| format!(" id={i}")).unwrap_or_default()),
         Op::Unsubscribe { c, filters, .. } => format!("unsub c{c} {filters:?}"),
-        Op::Publish { c, topic, qos, retain, size, props, .. } => format!("pub c{c} {topic} q{qos}{}{} {size}B", if *retain { " retain" } else { "" }, if props.is_some() { " props" } else { "" }),
+        Op::Publish { c, topic, qos, retain, size, props, dup, .. } => format!("pub c{c} {topic} q{qos}{}{}{} {size}B", if *retain { " retain" } else { "" }, if *dup { " dup" } else { "" }, if props.is_some() { " props" } else { "" }),
         other => format!("{other:?}"),
     }
 }
